@@ -231,6 +231,7 @@ class World:
         self.universe = {}  # identity bytes -> True, insertion ordered
         self.cells = {}  # identity -> tuple of column per row (ownership learned by probe)
         self.probe = None
+        self._obs = None
         self._sharers = {}
         self.counters = Counter()
         self.probes = Counter()
@@ -264,6 +265,7 @@ class World:
         self.nodes = []
         self.msgs = {}
         self.probe = None
+        self._obs = None
         shutil.rmtree(self.dir, ignore_errors=True)
 
     # -- keys --------------------------------------------------------------------
@@ -329,6 +331,21 @@ class World:
             out.append(row)
         self._sharers[key] = out
         return out
+
+    # -- observation ----------------------------------------------------------------
+    def observer(self, sk):
+        """Estimates of a count-min sketch. In 'clone' observation mode (most runs) the
+        table is copied into a scratch sketch of the same parameters and the scratch is
+        queried, so that looking at the sketch after every event does not touch hidden
+        per-object state (the `buckets` scratch array, any cache) and cannot mask a defect
+        that needs two operations with nothing in between. In 'live' mode the object itself
+        is queried, as a user would."""
+        if self.fam not in CMS or self.cfg.get("observe", "live") != "clone":
+            return sk
+        if self._obs is None:
+            self._obs = make_sketch(self.cfg, shared=False)
+        np.copyto(self._obs.cms, sk.cms)
+        return self._obs
 
     # -- parties ------------------------------------------------------------------
     def party(self, node, via):
@@ -595,6 +612,10 @@ class World:
             n.unknown = False
         n.mass = snap["mass"]
         if n.shadow is not None and snap["shadow"] is not None:
+            # a fresh in-memory object receives the shadow's state at the snapshot (rolling
+            # the old object back by writing its arrays would leave its private caches,
+            # e.g. the heavy-hitter candidate set, describing a future that never happened)
+            n.shadow = make_sketch(self.cfg, shared=False)
             restore_state(n.shadow, self.fam, snap["shadow"])
         self.probes["restart_to_older_snapshot"] += 1 if snap is not n.snaps[-1] else 0
         return {"node": ev["node"], "snap": snap, "loader": route, "restarted": True}
